@@ -2,7 +2,7 @@
 
 from __future__ import annotations
 
-from .. import formcheck, strategies
+from .. import formcheck, specs, strategies
 from ..common import Run, ShardResult, run_shards, scratch, verif_seed
 from ..hyp import drive
 
@@ -28,10 +28,47 @@ def nontrivial(spec):
     return has_fn
 
 
+def geometry_family():
+    """Template layer: every geometric quantity x restriction x cell x measure once (enumerated, not sampled)."""
+    out = []
+    for cell in ("interval", "triangle", "quadrilateral", "tetrahedron", "hexahedron"):
+        tdim = specs.TDIM[cell]
+        for cdeg in (1, 2):
+            for m in ("ds", "dS"):
+                base = {"kind": "form", "cell": cell, "gdim": tdim, "cdeg": cdeg, "elements": [["el", "P", 1, {}]], "args": [], "coefs": [0], "consts": [],
+                        "integrals": [], "data_seed": 1234 + 17 * tdim + cdeg}
+                g = strategies.G(None, dict(base), {})
+                for name, _ in strategies.geo_atoms(g, m):
+                    shape = specs.tree_shape(["geo", name], g.ns)
+                    comp = [s - 1 for s in shape]
+                    atom = ["idx", ["geo", name]] + comp if shape else ["geo", name]
+                    for r in (("+", "-") if m == "dS" else (None,)):
+                        a = [r, atom] if r else atom
+                        f = [r, ["f", 0]] if r else ["f", 0]
+                        spec = dict(base, integrals=[{"m": m, "id": None, "md": {"quadrature_degree": 2}, "e": ["mul", a, f]}])
+                        spec["_tags"] = ["P"]
+                        spec["_features"] = ["geo:" + name, "template"] + (["restr:" + r] if r else [])
+                        out.append(spec)
+    return out
+
+
 def shard(shard, nshards, n, tier, seed):
     res = ShardResult()
     with scratch(f"vf-c02-{shard}-") as wd:
         types = ["float64", "float64", "float32"]
+        fam = geometry_family()
+        for k, spec in enumerate(fam):
+            if k % nshards != shard:
+                continue
+            from ..common import leave_crumb
+
+            leave_crumb(spec)
+            o = formcheck.evaluate_form_spec(spec, wd, itypes=("exterior_facet", "interior_facet"), scalar_type="float64", prop=PROP,
+                                             all_entities=True, nontrivial=lambda s: True, n_inputs=1)
+            res.case(o.case_id, o.status == "ok", sample=None, classes=o.classes + ["template-family"])
+            res.count("status:" + o.status)
+            if o.status == "violation":
+                res.fail(o.key, o.what, o.replay, bucket=o.bucket)
 
         def ev(spec, st):
             o = formcheck.evaluate_form_spec(spec, wd, itypes=("exterior_facet", "interior_facet", "vertex"),
